@@ -587,9 +587,20 @@ func genPreAdmission(t *rapid.T) gwsim.Script {
 	n := rapid.IntRange(1, 8).Draw(t, "n")
 	for i := 0; i < n; i++ {
 		var p snref.Pkt
-		switch rapid.IntRange(0, 13).Draw(t, "kind") {
+		kind := rapid.IntRange(0, 14).Draw(t, "kind")
+		if kind == 14 {
+			// a CONNACK from the broker at this point of the history: late (the broker was silent so
+			// far), a duplicate, or unsolicited
+			rc := byte(0)
+			if rapid.IntRange(0, 3).Draw(t, "scripted_refusal") == 0 {
+				rc = genRefusalCode(t)
+			}
+			sc.Steps = append(sc.Steps, gwgen.MQ(mqttref.Pkt{Type: mqttref.CONNACK, RC: rc}))
+			continue
+		}
+		switch kind {
 		case 0, 1:
-			p = gwgen.Connect("cl", rapid.SampledFrom([]uint16{60, 60, 0}).Draw(t, "ka"), rapid.Bool().Draw(t, "will"), true)
+			p = gwgen.Connect(rapid.SampledFrom([]string{"cl", "cl", "c2"}).Draw(t, "cid"), rapid.SampledFrom([]uint16{60, 60, 0}).Draw(t, "ka"), rapid.Bool().Draw(t, "will"), true)
 		case 2:
 			p = gwgen.AuthPlain("alice", []byte("pw"))
 		case 3:
@@ -651,12 +662,33 @@ func TestC07(t *testing.T) {
 // checkAdmission is the C07 monitor.
 func checkAdmission(cfg gwsim.Config, tr *gwsim.Trace, r *vf.Result) {
 	admitted := false     // the broker accepted an MQTT CONNECT of this session
+	connectSentForCurrent := false // an MQTT CONNECT went out since the client's latest CONNECT datagram
+	acceptedCurrent := false       // ... and the broker answered CONNACK(accepted) after it
+	sleptSinceAdmission := false   // an admitted client announced a sleep: its later CONNECT is answered by the gateway itself
 	brokerConnects := 0   // MQTT CONNECTs sent
 	var illegalAt = -1    // event index of the first pre-admission packet that must end the session
 	var illegalNs int64
 	illegalName := ""
 	pre, preNonConnect := 0, 0
 	for i, e := range tr.Events {
+		if e.Dir == gwsim.CG && e.SN != nil {
+			switch {
+			case e.SN.Type == snref.CONNECT:
+				// a CONNECT which the gateway refuses at once (zero keep-alive, protocol ID, client ID)
+				// opens no exchange and leaves a pending one alone
+				refused := false
+				for j := i + 1; j < len(tr.Events) && tr.Events[j].Dir != gwsim.CG; j++ {
+					if x := tr.Events[j]; x.Dir == gwsim.GC && x.SN != nil && x.SN.Type == snref.CONNACK && x.SN.RC != 0 {
+						refused = true
+					}
+				}
+				if !refused {
+					connectSentForCurrent, acceptedCurrent = false, false
+				}
+			case e.SN.Type == snref.DISCONNECT && e.SN.Duration > 0 && admitted:
+				sleptSinceAdmission = true
+			}
+		}
 		switch {
 		case e.Dir == gwsim.EV && e.What == "END":
 			goto done
@@ -664,9 +696,13 @@ func checkAdmission(cfg gwsim.Config, tr *gwsim.Trace, r *vf.Result) {
 			if illegalAt < 0 {
 				admitted = true
 			}
+			if connectSentForCurrent {
+				acceptedCurrent = true
+			}
 		case e.Dir == gwsim.GB && e.MQ != nil:
 			if e.MQ.Type == mqttref.CONNECT {
 				brokerConnects++
+				connectSentForCurrent = true
 			}
 			if illegalAt >= 0 {
 				r.Fail("forwarded-after-illegal-packet/"+illegalName, "%v reached the broker after the pre-admission %s at event %d\n%s", *e.MQ, illegalName, illegalAt, tr.Dump(25))
@@ -691,6 +727,8 @@ func checkAdmission(cfg gwsim.Config, tr *gwsim.Trace, r *vf.Result) {
 					via = snref.TypeName(tr.Events[j].SN.Type)
 				}
 				r.Fail("connack-accepted-without-broker/via="+via, "client told CONNACK(accepted) but the broker has not accepted any CONNECT in this session\n%s", tr.Dump(25))
+			} else if !acceptedCurrent && !sleptSinceAdmission {
+				r.Fail("connack-accepted-for-another-exchange", "client told CONNACK(accepted), but since its latest CONNECT datagram either no MQTT CONNECT was sent for it or the broker has not accepted it (the acceptance seen belongs to an earlier exchange)\n%s", tr.Dump(25))
 			}
 		case e.Dir == gwsim.CG && e.SN != nil && !admitted && illegalAt < 0:
 			p := *e.SN
